@@ -42,7 +42,7 @@ from sims import s2_mon as M
 
 PROPERTY = "C16"
 LEVEL = "exploration"
-QUICK_RUNS = 1200
+QUICK_RUNS = 800
 THOROUGH_RUNS = 120_000
 QUICK_BUDGET_S = 100
 THOROUGH_BUDGET_S = 1500
